@@ -2487,7 +2487,7 @@ Proof.
     { unfold pt_find. unfold amem in Hk. destruct (alookup keqb (c_pid x, va) (pt s)) as [pg0|] eqn:El; [|congruence].
       pose proof I1 as (_ & _ & F). rewrite Forall_forall in F.
       destruct (F _ (alookup_In keqb keqb_eq _ _ _ El)) as (E1 & E2 & _). cbn in E1, E2.
-      inversion E1 as [[Hp Hv]]. rewrite <- Hv in E2. rewrite (aligned_div_mul (psz s) va Hpos E2). reflexivity. }
+      inversion E1 as [[Hp Hv]]. rewrite (aligned_div_mul (psz s) (p_va pg0) Hpos E2). rewrite <- Hv. exact El. }
     rewrite Hfind. unfold amem in Hk. destruct (alookup keqb (c_pid x, va) (pt s)) as [old|] eqn:El; [|congruence].
     destruct (alloc_given (c_pid x) (N.to_nat (gpu + 1)) va true s) as [[pg s']|] eqn:E.
     + destruct (alloc_given_spec _ _ _ _ _ _ _ I1 I2 E) as (_ & _ & G3 & _ & _ & Hks & Hpid & Hva & Hpt & _).
